@@ -45,6 +45,8 @@ type Leaf interface {
 	// setShortLeaf sets the leaf that stands for the same route without its
 	// optional segment.
 	setShortLeaf(l Leaf)
+	// getBinds returns the list of bind parameters of the leaf itself.
+	getBinds() []string
 	// getParent returns the parent tree the leaf belongs to.
 	getParent() Tree
 	// getSegment returns the segment that the leaf is derived from.
@@ -144,6 +146,10 @@ func (*baseLeaf) Static() bool {
 	return false
 }
 
+func (*baseLeaf) getBinds() []string {
+	return nil
+}
+
 // staticLeaf is a leaf with a static match style.
 type staticLeaf struct {
 	baseLeaf
@@ -185,6 +191,10 @@ func (*regexLeaf) getMatchStyle() MatchStyle {
 	return matchStyleRegex
 }
 
+func (l *regexLeaf) getBinds() []string {
+	return l.binds
+}
+
 func (l *regexLeaf) match(segment string, params Params, header http.Header) bool {
 	submatches := l.regexp.FindStringSubmatch(segment)
 	if len(submatches) != len(l.binds)+1 {
@@ -214,6 +224,10 @@ func (*placeholderLeaf) getMatchStyle() MatchStyle {
 	return matchStylePlaceholder
 }
 
+func (l *placeholderLeaf) getBinds() []string {
+	return []string{l.bind}
+}
+
 func (l *placeholderLeaf) match(segment string, params Params, header http.Header) bool {
 	if !l.matchHeader(header) {
 		return false
@@ -231,6 +245,10 @@ type matchAllLeaf struct {
 
 func (*matchAllLeaf) getMatchStyle() MatchStyle {
 	return matchStyleAll
+}
+
+func (l *matchAllLeaf) getBinds() []string {
+	return []string{l.bind}
 }
 
 func (l *matchAllLeaf) match(segment string, params Params, header http.Header) bool {
